@@ -6,6 +6,7 @@ import (
 	"sort"
 	"strings"
 	"sync"
+	"sync/atomic"
 	"time"
 
 	"golang.org/x/tools/go/ssa"
@@ -113,6 +114,7 @@ type Exec struct {
 	keyPairs         []*smt.Term
 	curLoc           string
 	callStack        []string
+	reason           string
 }
 
 // ResultSet accumulates the results of the paths of one harness.
@@ -367,6 +369,10 @@ func (e *Exec) branch(c *smt.Term) bool {
 		return false
 	}
 	var firstRes smt.Result = smt.Unknown
+	if e.reason == "" {
+		e.reason = "branch"
+		defer func() { e.reason = "" }()
+	}
 	d := e.choose(2, func(i int) smt.Result {
 		if i == 0 {
 			firstRes = e.feasible(c)
@@ -404,8 +410,21 @@ func (e *Exec) assume(c *smt.Term) {
 
 func (e *Exec) addAxiom(c *smt.Term) { e.assume(c) }
 
+// QueryReasons counts solver calls by purpose (profiling aid).
+var QueryReasons sync.Map
+
+func countReason(r string) {
+	v, _ := QueryReasons.LoadOrStore(r, new(int64))
+	atomic.AddInt64(v.(*int64), 1)
+}
+
 // solve decides pc ∧ extra. With getTerms, returns their model values.
 func (e *Exec) solve(extra []*smt.Term, getTerms []*smt.Term) (smt.Result, []string, error) {
+	if e.reason == "" {
+		countReason("other")
+	} else {
+		countReason(e.reason)
+	}
 	if !e.Cfg.Incremental {
 		s := e.script(extra...)
 		var q []string
@@ -520,7 +539,9 @@ func (e *Exec) check(cond *smt.Term, label string) {
 		return
 	}
 	neg := smt.Not(cond)
+	e.reason = "check"
 	r, _, err := e.solve([]*smt.Term{neg}, nil)
+	e.reason = ""
 	if err != nil {
 		e.Notes["solver: "+err.Error()] = true
 	}
@@ -582,6 +603,15 @@ func (e *Exec) cover(label string) {
 // extractOracle solves pc ∧ extra and evaluates every nondet site.
 func (e *Exec) extractOracle(extra ...*smt.Term) (map[string]interface{}, error) {
 	p := e.path
+	// realisability: distinct input atoms are distinct strings
+	if ext := e.extAxioms(); len(ext) > 0 {
+		withExt := append(append([]*smt.Term{}, extra...), ext...)
+		if r, _, err := e.solve(withExt, nil); err == nil && r == smt.Sat {
+			extra = withExt
+		} else {
+			e.Notes["a model exists only with two distinct atoms holding equal bytes (extensionality not derivable on this path): the witness/counterexample may not replay"] = true
+		}
+	}
 	// prefer small models: bound every input length, relax if unsat
 	for _, lim := range []uint64{2, 8, 40} {
 		var small []*smt.Term
